@@ -10,6 +10,7 @@ Driver commands of the SymTab / Registry / Tree models (trusted glue, no theorem
 * `symtab   <script>`                     newline-separated ops → results (one line per op),
                                           `str(SYMBOL_TABLES)`, forest rendering, current scope
 * `registry <history>`                    comma-separated `create` arguments → registry lines
+* `regcheck`                              → model setup == generated real registry (f2003, f2008)
 * `tree     <events> <root>`              → parent map, walk(root), root of every node,
                                           first immediate Base child of every node
 * `deepcopy <events> <start> <facts> [deepcopy|pickle]`
@@ -200,6 +201,14 @@ def handleRegistry (hist : String) : String :=
   let evs := ((hist.splitOn ",").filter (· ≠ "")).map fun s => Ev.create (parseStdArg s)
   "OK\t" ++ enc (renderReg (registryAfter world evs))
 
+/-- executable form of `setup_matches_generated`: the model's `setup (members std)` over the
+    generated class facts equals the generated REAL `Base.subclasses` (both standards) -/
+def handleRegcheck : String :=
+  let ok03 := setup world (members world .f2003) == Generated.real2003
+  let ok08 := setup world (members world .f2008) == Generated.real2008
+  "OK\t" ++ enc (if ok03 then "1" else "0") ++ "\t" ++ enc (if ok08 then "1" else "0")
+  ++ "\t" ++ enc (toString Generated.real2003.length) ++ "\t" ++ enc (toString Generated.real2008.length)
+
 end registry
 
 /-! ## tree -/
@@ -315,6 +324,7 @@ def handle : String → List String → Option String
   | "symtab", [s] => some (handleSymtab (dec s))
   | "symtab", [] => some (handleSymtab "")
   | "registry", [h] => some (handleRegistry (dec h))
+  | "regcheck", _ => some handleRegcheck
   | "tree", [s, r] => some (handleTree (dec s) (dec r))
   | "deepcopy", [s, n, f] => some (handleDeepcopy (dec s) (dec n) (dec f))
   | "deepcopy", [s, n, f, h] => some (handleDeepcopy (dec s) (dec n) (dec f) (dec h))
